@@ -5,7 +5,7 @@ import gen
 import msuite
 
 PID = 'C11'
-TAGS = ['cputreq', 'cputrej', 'csub', 'cend', 'cleave', 'cnext', 'got', 'caught']
+TAGS = ['cclose', 'cputreq', 'cputrej', 'csub', 'cend', 'cleave', 'cnext', 'got', 'caught']
 RULE = ('(a) families: 1-2 producers, 1-4 consumers (iteration with early break, single awaits, late subscription) on one '
         'channel inside an (until-)scope, puts/close on a coarse time grid, cancels after t time units and k postponements, '
         'deadlines, volatile consumers; consumers holding several subscriptions at once (an await or a second iteration of '
